@@ -5,6 +5,7 @@ import (
 	"encoding/hex"
 	"encoding/json"
 	"fmt"
+	"strings"
 	"time"
 
 	"golang.org/x/crypto/ssh"
@@ -116,7 +117,16 @@ func genSSHSession(r *Rng) sshSessSpec {
 			ch.Requests = append(ch.Requests, req())
 		}
 		if r.Chance(0.5) {
-			ch.Data = hex.EncodeToString([]byte("uname -a\n" + r.word(0, 40) + "\nexit\n"))
+			// shell input: ordinary lines, lines of blanks only, empty lines, CR-LF endings, a very long line
+			var sb strings.Builder
+			for k := r.Range(1, 6); k > 0; k-- {
+				sb.WriteString(r.Pick([]string{"uname -a", r.word(0, 40), "   ", "\t", "", " \t ", "id; ls -la /", strings.Repeat("A", r.Range(1, 3000)), "echo \x1b[1;", "exit"}))
+				sb.WriteString(r.Pick([]string{"\n", "\n", "\r\n", "\r"}))
+			}
+			ch.Data = hex.EncodeToString([]byte(sb.String()))
+			if r.Chance(0.3) {
+				ch.Data = hex.EncodeToString([]byte("uname -a\n" + r.word(0, 40) + "\nexit\n"))
+			}
 			if r.Chance(0.2) {
 				ch.Data = hex.EncodeToString(r.Bytes(r.Range(1, 5000)))
 			}
